@@ -19,6 +19,10 @@ def target_env(known, stats=None):
         env["VERIF_STATS"] = stats
     if os.environ.get("VERIF_FUZZ_DATA"):
         env["VERIF_FUZZ_DATA"] = os.environ["VERIF_FUZZ_DATA"]
+    # the targets' per-process scratch files (the ELF / whitelist bytes handed to path-taking APIs) live under build/, not /tmp
+    tmp = os.path.join(build.BUILD, "run", "fuzztmp")
+    os.makedirs(tmp, exist_ok=True)
+    env["VERIF_FUZZ_TMP"] = tmp
     return env
 
 
@@ -243,6 +247,7 @@ def run(pid, tier, mod):
     for l in lines:
         print(l)
     shutil.rmtree(os.path.join(rdir, "corpus-seeded"), ignore_errors=True)
+    shutil.rmtree(os.path.join(build.BUILD, "run", "fuzztmp"), ignore_errors=True)
     return 1 if nviol else 0
 
 
